@@ -200,6 +200,8 @@ def edit_histories(chk, rng):
                 explicit = float(u.rotation)
                 break
         setting = b.__dict__.get('rotation', 'unset')
+        if isinstance(setting, np.bool_):       # True and False are switches however they are spelled (a plugin's np.any(...) gives a numpy bool)
+            setting = bool(setting)
         if setting != 'unset' and setting is not True:
             own = 0.0 if setting is False else float(setting)
         else:
@@ -228,6 +230,12 @@ def edit_histories(chk, rng):
         [('insert-rotator', 4, 90), ('set', 2, 90), ('del', 2)],
         # a turn by one degree is a turn by one degree, however the number is spelled (round -> oval tolerates any angle)
         [('set', 4, 1)], [('set', 4, 1.0), ('set', 4, True)], [('set', 4, np.float64(1.0))], [('set', 4, np.int64(1)), ('del', 4)],
+        [('set', 2, np.True_)], [('set', 4, np.False_), ('set', 4, np.True_)],
+        # the unit list edited through every list operation: units that stay listed must keep seeing their neighbours
+        [('insert-rotator', 2, 90), ('slice-keep-no-transports',)], [('insert-rotator', 4, 90), ('slice-window', 3, 6)],
+        [('slice-keep-no-transports',), ('insert-rotator', 1, 90), ('slice-reassign-all',)], [('insert-rotator', 2, 90), ('setitem-same', 3)],
+        [('insert-rotator', 2, 90), ('iadd-transport',), ('slice-reassign-all',)], [('extend-rotator-pass',), ('slice-window', 4, 7)],
+        [('insert-rotator', 2, 90), ('pop-insert', 1)], [('insert-rotator', 4, 90), ('del-slice', 1, 2), ('slice-reassign-all',)],
     ]
     with RollPass.Profile.flow_stress(flow_stress):
         for script in scripts:
@@ -253,6 +261,27 @@ def edit_histories(chk, rng):
                     seq.drop(op[1])
                 elif op[0] == 'prepend-transport':
                     seq.subunits.insert(0, Transport(label=f"lead{len(done)}", duration=1, velocity=1.0))
+                elif op[0] == 'slice-keep-no-transports':
+                    seq.subunits[:] = [u for u in seq.subunits if not isinstance(u, Transport)]
+                elif op[0] == 'slice-window':         # a window of the list replaced by the same units (kept units are adopted and released at once)
+                    seq.subunits[op[1]:op[2]] = list(seq.subunits[op[1]:op[2]])
+                elif op[0] == 'slice-reassign-all':
+                    seq.subunits[:] = list(seq.subunits)
+                elif op[0] == 'setitem-same':
+                    seq.subunits[op[1]] = seq.subunits[op[1]]
+                elif op[0] == 'iadd-transport':
+                    lst = seq.subunits         # (the attribute has no setter: augmented assignment on the list object itself)
+                    lst += [Transport(label=f"tail{len(done)}", duration=1)]
+                elif op[0] == 'extend-rotator-pass':
+                    import copy as _copy
+                    last = _copy.deepcopy(seq.subunits[0])
+                    last.label = f"again{len(done)}"
+                    seq.subunits.extend([Transport(label=f"t{len(done)}", duration=1), Rotator(label=f"explicit{len(done)}", rotation=90), last])
+                elif op[0] == 'pop-insert':           # a unit taken out and put back at the same place
+                    u = seq.subunits.pop(op[1])
+                    seq.subunits.insert(op[1], u)
+                elif op[0] == 'del-slice':
+                    del seq.subunits[op[1]:op[2]]
                 elif op[0] == 'read-rotation':
                     [getattr(u, 'rotation') for u in seq.units if isinstance(u, BaseRollPass)]
                     continue        # only looked at: the next edit follows without a solve in between
